@@ -246,6 +246,13 @@ pub struct SubInfo {
     pub max_rice: u32,
     pub precision: u32,
     pub shift: u32,
+    /// absolute bit offsets of fields, for building checksum-consistent corruptions
+    pub header_bit: usize,
+    pub method_bit: Option<usize>,
+    pub porder_bit: Option<usize>,
+    pub prec_bit: Option<usize>,
+    pub shift_bit: Option<usize>,
+    pub first_param_bit: Option<usize>,
 }
 
 #[derive(Debug, Clone)]
@@ -345,6 +352,7 @@ fn read_residual(
     info: &mut SubInfo,
     strict: &mut Vec<String>,
 ) -> P<()> {
+    info.method_bit = Some(b.pos);
     let method = b.u(2)?;
     if method > 1 {
         return bad("reserved residual coding method");
@@ -352,6 +360,7 @@ fn read_residual(
     let pbits = if method == 0 { 4 } else { 5 };
     info.rice2 = method == 1;
     let esc = (1u64 << pbits) - 1;
+    info.porder_bit = Some(b.pos);
     let porder = b.u(4)? as u32;
     info.part_order = Some(porder);
     let parts = 1u32 << porder;
@@ -371,6 +380,9 @@ fn read_residual(
     }
     for p in 0..parts {
         let n = if p == 0 { per - order } else { per };
+        if p == 0 {
+            info.first_param_bit = Some(b.pos);
+        }
         let param = b.u(pbits)?;
         if param == esc {
             info.escaped = true;
@@ -406,6 +418,7 @@ fn read_residual(
 }
 
 fn read_subframe(b: &mut Bits, block: u32, bps: u32, strict: &mut Vec<String>, zero_pad: &mut bool) -> P<(Vec<i64>, SubInfo)> {
+    let header_bit = b.pos;
     if b.bit()? != 0 {
         *zero_pad = false;
         return bad("subframe header padding bit is 1");
@@ -426,6 +439,12 @@ fn read_subframe(b: &mut Bits, block: u32, bps: u32, strict: &mut Vec<String>, z
         max_rice: 0,
         precision: 0,
         shift: 0,
+        header_bit,
+        method_bit: None,
+        porder_bit: None,
+        prec_bit: None,
+        shift_bit: None,
+        first_param_bit: None,
     };
     let n = block as usize;
     let mut s: Vec<i64> = Vec::with_capacity(n);
@@ -479,11 +498,13 @@ fn read_subframe(b: &mut Bits, block: u32, bps: u32, strict: &mut Vec<String>, z
             for _ in 0..order {
                 s.push(b.s(ebps)?);
             }
+            info.prec_bit = Some(b.pos);
             let prec = b.u(4)? as u32;
             if prec == 15 {
                 return bad("LPC precision code 1111 is forbidden");
             }
             let prec = prec + 1;
+            info.shift_bit = Some(b.pos);
             let shift = b.s(5)?;
             if shift < 0 {
                 return bad("negative LPC shift is forbidden");
@@ -841,4 +862,33 @@ pub fn pcm_md5(inter: &[i32], bps: u32) -> [u8; 16] {
         v.extend_from_slice(&s.to_le_bytes()[..bytes]);
     }
     md5::compute(v).0
+}
+
+
+/// overwrite `n` bits at absolute bit offset `at` with the low bits of `v`
+pub fn set_bits(d: &mut [u8], at: usize, n: usize, v: u64) {
+    for i in 0..n {
+        let bit = (v >> (n - 1 - i)) & 1;
+        let pos = at + i;
+        let mask = 0x80u8 >> (pos & 7);
+        if bit == 1 {
+            d[pos >> 3] |= mask;
+        } else {
+            d[pos >> 3] &= !mask;
+        }
+    }
+}
+
+/// recompute CRC-8 (header of `header_len` bytes incl. the CRC byte) and CRC-16 of the frame
+/// occupying d[start..end]
+pub fn repair_crcs(d: &mut [u8], start: usize, header_len: usize, end: usize, fix8: bool) {
+    if fix8 && header_len >= 2 && start + header_len <= d.len() {
+        let c = crc8(&d[start..start + header_len - 1]);
+        d[start + header_len - 1] = c;
+    }
+    if end >= start + 2 && end <= d.len() {
+        let c = crc16(&d[start..end - 2]);
+        d[end - 2] = (c >> 8) as u8;
+        d[end - 1] = c as u8;
+    }
 }
